@@ -13,5 +13,5 @@ struct Sched {
 };
 using L = ::babylon::CountDownLatch<Sched>;
 void force(L& l) { l.count_down(2); }
-void force2(size_t n) { L l(n); l.count_down(1); }
+void force2(size_t n) { L l(n); l.count_down(1); L m(::std::move(l)); m.count_down(1); }
 }
